@@ -7,6 +7,7 @@ pub enum SEffect {
 }
 pub struct AtomicBool { pub v: bool }
 impl AtomicBool {
+    pub fn vx_new(v: bool) -> (r: Self) ensures r.v == v { AtomicBool { v } }
     pub fn load(&self, o: Ordering) -> (r: bool) ensures r == self.v { self.v }
     pub fn store(&mut self, x: bool, o: Ordering) ensures final(self).v == x { self.v = x; }
     #[verifier::external_body]
